@@ -45,6 +45,13 @@ theorem noMore_restrict {log : Log} {e : TEv} (h : NoMore (log ++ [e])) : NoMore
     exact h m x n (by rw [evAt_append_lt log e m hlt]; exact hm)
   · exact h log.length x n (by rw [evAt_append_eq, he])
 
+theorem noMore_take {log : Log} (h : NoMore log) (k : Nat) : NoMore (log.take k) := by
+  intro m x n hm
+  have hlt : m < k := by
+    false_or_by_contra; rename_i hn
+    rw [evAt_none (log.take k) m (by simp; omega)] at hm; simp at hm
+  exact h m x n (by rw [← evAt_take log k m hlt]; exact hm)
+
 /-- no return of `c` after position i -/
 def NoRetAfter (log : Log) (c i : Nat) : Prop := ∀ m, i < m → m < log.length → isRetOf c (evAt log m) = false
 
